@@ -53,7 +53,15 @@ func getResponseHeader(src *fasthttp.ResponseHeader) (dest http.Header) {
 func (trans *Transport) Transport(ctx context.Context, request []byte) (response []byte, err error) {
 	clientContext := core.GetClientContext(ctx)
 	req := fasthttp.AcquireRequest()
-	defer fasthttp.ReleaseRequest(req)
+	resp := fasthttp.AcquireResponse()
+	// when the call is abandoned the exchange still owns req and resp until it ends
+	abandoned := false
+	defer func() {
+		if !abandoned {
+			fasthttp.ReleaseRequest(req)
+			fasthttp.ReleaseResponse(resp)
+		}
+	}()
 	req.Header.SetMethod("POST")
 	req.SetRequestURI(clientContext.URL.String())
 	req.SetBody(request)
@@ -76,12 +84,25 @@ func (trans *Transport) Transport(ctx context.Context, request []byte) (response
 	if trans.cookieManager != nil {
 		trans.loadCookie(req, clientContext.URL)
 	}
-	resp := fasthttp.AcquireResponse()
-	defer fasthttp.ReleaseResponse(resp)
-	if deadline, ok := ctx.Deadline(); ok {
-		err = trans.FastHTTPClient.DoDeadline(req, resp, deadline)
-	} else {
-		err = trans.FastHTTPClient.Do(req, resp)
+	// fasthttp knows deadlines but no cancellation: wait for the exchange or for ctx
+	done := make(chan error, 1)
+	go func() {
+		if deadline, ok := ctx.Deadline(); ok {
+			done <- trans.FastHTTPClient.DoDeadline(req, resp, deadline)
+		} else {
+			done <- trans.FastHTTPClient.Do(req, resp)
+		}
+	}()
+	select {
+	case err = <-done:
+	case <-ctx.Done():
+		abandoned = true
+		go func() {
+			<-done
+			fasthttp.ReleaseRequest(req)
+			fasthttp.ReleaseResponse(resp)
+		}()
+		return nil, ctx.Err()
 	}
 	if err != nil {
 		return nil, err
